@@ -83,6 +83,14 @@ def tseytin_transformation(
         lits = [process_gate(lit) for lit in operands]
         gate_type = gate.gate_type
         top_lit = get_lit(label)
+        if gate_type in (XOR, NXOR) and len(lits) > 2:
+            # n-ary parity: fold all but the last operand through auxiliary literals
+            acc_lit = lits[0]
+            for lit in lits[1:-1]:
+                aux_lit = __register_new_gate()
+                _process_xor(cnf, aux_lit, [acc_lit, lit])
+                acc_lit = aux_lit
+            lits = [acc_lit, lits[-1]]
         _operations[gate_type](cnf, top_lit, lits)
         return top_lit
 
